@@ -1,4 +1,8 @@
 import CrdtModel.Audit.Tool
+import CrdtModel.Props.SysOrswot
+import CrdtModel.Props.SysMap
 import CrdtModel.Props.C04
 #audit_ns Crdt.C04
 #audit_ns Crdt.OrswotSpec
+#audit_ns Crdt.Sys
+#audit_ns Crdt.SysMap
